@@ -13,8 +13,8 @@ import (
 // choices are drawn (from rapid) and recorded; without, they are replayed from
 // Rec (0 once exhausted).
 type Decisions struct {
-	Rec  []int               `json:"rec,omitempty"`
-	Draw func(n int) int     `json:"-"`
+	Rec  []int           `json:"rec,omitempty"`
+	Draw func(n int) int `json:"-"`
 	pos  int
 }
 
